@@ -14,7 +14,8 @@ OUT = os.environ.get("VERIF_PYL_OUT") or os.path.join(os.path.dirname(os.path.ab
 
 TARGETS = {
     "builtins.py": ["all", "any", "list", "tuple", "set", "filter", "enumerate", "sum", "_min_max", "map", "_zip_inner", "_zip_inner_strict", "zip"],
-    "itertools.py": ["takewhile", "dropwhile", "filterfalse", "starmap", "pairwise", "accumulate", "islice", "compress", "batched"],
+    "itertools.py": ["takewhile", "dropwhile", "filterfalse", "starmap", "pairwise", "accumulate", "islice", "compress", "batched", "cycle",
+                     "chain._chain_iterator"],
     "functools.py": ["reduce"],
 }
 
@@ -44,6 +45,19 @@ class Tr:
                 for t in n.targets:
                     if isinstance(t, ast.Name):
                         self.callables.add(t.id)
+        # names bound to a tuple of iterables: `async for X in Y` whose loop variable X is itself opened with ScopedIter(X),
+        # and what Y is an alias of (`async with ScopedIter(A) as Y`)
+        scoped_names = {n.args[0].id for n in ast.walk(fn) if isinstance(n, ast.Call) and isinstance(n.func, ast.Name)
+                        and n.func.id == "ScopedIter" and len(n.args) == 1 and isinstance(n.args[0], ast.Name)}
+        self.nested = {n.iter.id for n in ast.walk(fn) if isinstance(n, ast.AsyncFor) and isinstance(n.iter, ast.Name)
+                       and isinstance(n.target, ast.Name) and n.target.id in scoped_names}
+        for n in ast.walk(fn):
+            if isinstance(n, ast.AsyncWith):
+                for item in n.items:
+                    c = item.context_expr
+                    if (isinstance(item.optional_vars, ast.Name) and item.optional_vars.id in self.nested and isinstance(c, ast.Call)
+                            and isinstance(c.func, ast.Name) and c.func.id == "ScopedIter" and len(c.args) == 1 and isinstance(c.args[0], ast.Name)):
+                        self.nested.add(c.args[0].id)
 
     # ----- expressions -----
     def expr(self, e):
@@ -282,7 +296,7 @@ class Tr:
                         and len(c.args) == 1 and isinstance(c.args[0], ast.Name) and not c.keywords
                         and isinstance(item.optional_vars, ast.Name)):
                     raise Unsupported("async with")
-                body = "(SWith %s %s %s)" % (q(item.optional_vars.id), q(c.args[0].id), body)
+                body = "(%s %s %s %s)" % ("SWithStar" if c.args[0].id in self.nested else "SWith", q(item.optional_vars.id), q(c.args[0].id), body)
             return body
         if isinstance(s, ast.AsyncFor) and isinstance(s.target, ast.Tuple) and len(s.target.elts) == 2 \
                 and builtins_all(isinstance(x, ast.Name) for x in s.target.elts) and isinstance(s.iter, ast.Call) and isinstance(s.iter.func, ast.Name):
@@ -299,6 +313,10 @@ class Tr:
         if isinstance(s, ast.AsyncFor):
             if not (isinstance(s.target, ast.Name) and isinstance(s.iter, ast.Name)):
                 raise Unsupported("async for shape")
+            if s.iter.id in self.nested:
+                if s.orelse:
+                    raise Unsupported("async for ... else over a tuple of iterables")
+                return "(SForStar %s %s %s)" % (q(s.target.id), q(s.iter.id), self.block(s.body))
             return "(SFor %s %s %s %s)" % (q(s.target.id), q(s.iter.id), self.block(s.body), self.block(s.orelse))
         if isinstance(s, ast.Raise) and isinstance(s.exc, ast.Call) and isinstance(s.exc.func, ast.Name) \
                 and s.exc.func.id in ("TypeError", "ValueError") and builtins_all(self.is_text(x) for x in s.exc.args) and not s.exc.keywords \
@@ -323,7 +341,11 @@ class Tr:
                     and isinstance(args[0].value.func, ast.Name) and args[0].value.func.id == "anext" and len(args[0].value.args) == 1
                     and isinstance(args[0].value.args[0], ast.Name) and not args[0].value.keywords):
                 return "(SAppendAnext %s %s)" % (q(obj), q(args[0].value.args[0].id))
+            if meth == "append" and len(args) == 1 and not isinstance(args[0], ast.Starred):
+                return "(SAppend %s %s)" % (q(obj), self.expr(args[0]))
             raise Unsupported("method call")
+        if isinstance(s, ast.For) and not s.orelse and isinstance(s.iter, ast.Name) and isinstance(s.target, ast.Name):
+            return "(SForList %s %s %s)" % (q(s.target.id), q(s.iter.id), self.block(s.body))
         if isinstance(s, ast.For) and not s.orelse and isinstance(s.iter, ast.Call) and not s.iter.keywords:
             fn_ = s.iter.func
             fname = fn_.id if isinstance(fn_, ast.Name) else (fn_.attr if isinstance(fn_, ast.Attribute) and isinstance(fn_.value, ast.Name)
@@ -403,6 +425,11 @@ def translate():
         for n in tree.body:
             if isinstance(n, (ast.AsyncFunctionDef, ast.FunctionDef)) and n.name in targets:
                 found[n.name] = n        # the last definition wins (overloads come first)
+        for n in tree.body:
+            if isinstance(n, ast.ClassDef):
+                for m in n.body:
+                    if isinstance(m, (ast.AsyncFunctionDef, ast.FunctionDef)) and "%s.%s" % (n.name, m.name) in targets:
+                        found["%s.%s" % (n.name, m.name)] = m
         for t in targets:
             n = found.get(t)
             if n is None or not isinstance(n, ast.AsyncFunctionDef):
@@ -421,6 +448,7 @@ def translate():
                         # *args consumed by the slice prelude become start/stop/step; any other *name is a list of iterables
                         params += ["start", "stop", "step"] if body.startswith("(SSeq SSlicePrelude") else [a.vararg.arg]
                     params += [x.arg for x in a.kwonlyargs]
+            t = t.split("._")[-1]
             lines.append("Definition src_%s : fdef := mkFn %s [%s]\n  %s." % (t.lstrip("_"), q(t), "; ".join(q(p) for p in params), body))
             if t == "_min_max":
                 # the public wrappers: `return await _min_max(iterable, key, <invert>, default)`
